@@ -362,6 +362,8 @@ def build_dynamic(r):
     r.shuffle(tags)
     tags.append((0, 0))
     junk = [(r.choice([1, 6, 25]), r.getrandbits(16)) for _ in range(r.choice([0, 1, 3]))] + [(0, 0)]
+    if r.random() < 0.3:
+        junk = []                   # the terminator is the last entry: the table exactly fills section and segment
     dyn_real = b''.join(t.to_bytes(w, bo) + v.to_bytes(w, bo) for t, v in tags)
     dynamic = dyn_real + b''.join(t.to_bytes(w, bo) + v.to_bytes(w, bo) for t, v in junk)
     body += dynamic
@@ -416,9 +418,12 @@ def build_dynamic(r):
         if cls == 32:
             return b''.join(x.to_bytes(4, bo) for x in (typ, off, vaddr, vaddr, filesz, memsz, flags, align))
         return typ.to_bytes(4, bo) + flags.to_bytes(4, bo) + b''.join(x.to_bytes(8, bo) for x in (off, vaddr, vaddr, filesz, memsz, align))
-    ph = phdr(1, 5, 0, va1(0), seg1_end, seg1_end, 0x1000) + \
-        phdr(1, 6, seg2_off, va2(seg2_off), seg2_end - seg2_off, seg2_end - seg2_off + r.choice([0, 64]), 0x1000) + \
-        phdr(2, 6, dyn_off, va2(dyn_off), len(dynamic), len(dynamic), w)
+    phs = [phdr(1, 5, 0, va1(0), seg1_end, seg1_end, 0x1000),
+           phdr(1, 6, seg2_off, va2(seg2_off), seg2_end - seg2_off, seg2_end - seg2_off + r.choice([0, 64]), 0x1000),
+           phdr(2, 6, dyn_off, va2(dyn_off), len(dynamic), len(dynamic), w)]
+    if r.random() < 0.4:
+        r.shuffle(phs)              # program headers in any order (PT_DYNAMIC before the PT_LOADs, PT_LOADs descending)
+    ph = b''.join(phs)
     ident = b'\x7fELF' + bytes([1 if cls == 32 else 2, 1 if le else 2, 1, 0]) + bytes(8)
     machine = (62 if rela else 183) if cls == 64 else (3 if not rela else 40)
     if mips64:
